@@ -317,6 +317,14 @@ def r10_3(run):
     emit_tests = [t for t in tests if any(isinstance(a, ast.Call) and dotted(a.func) == AN + '.append' for b in (t.owner.body + t.owner.orelse) for a in ast.walk(b))]
     run.floor('R10.3', 'list/scalar emission tests in save', len(emit_tests), 1)
     region = set(id(a) for t in emit_tests for b in (t.owner.body + t.owner.orelse) for a in ast.walk(b))
+    # what is emitted is the pending value itself (already validated by the setter): nothing re-parses, splits or wraps it
+    # between the loop head and the emission - "ExitNodes = 'x,y'" is one scalar, sent once as 'x,y'
+    for t in emit_tests:
+        rds = reaching_defs(g, t, value)
+        late = [r for r in rds if r is not outer]
+        run.ob('R10.3', sv, late[0].ast if late else t.ast, 'the emission looks at the pending value as stored (no rebinding before it)', not late, slot='emit-pending-value',
+               message='save() rebinds %s (%s) before building the SETCONF arguments: the option is emitted in a different shape than the '
+                       'validated value that is pending' % (value, src(late[0].ast)[:70] if late else ''))
     inner_loops = [n for n in g.live if n.kind == 'iter' and id(n.ast) in region and mentions(n.ast.iter, value)]
 
     def is_key_append(a):
@@ -596,6 +604,7 @@ MUTANTS = [
     M('insert-not-wrapped', F, "    insert = _wrapture(list.insert)\n", "", ['R10.2']),
     M('wrapper-skips-on_modify', F, "        obj = args[0]\n        obj.on_modify()\n        return orig(*args)", "        obj = args[0]\n        if len(obj):\n            obj.on_modify()\n        return orig(*args)", ['R10.2']),
     M('mark_unsaved-copies', F, "            self.unsaved[name] = self.config[self._find_real_name(name)]", "            self.unsaved[name] = list(self.config[self._find_real_name(name)])", ['R10.2']),
+    M('listify-before-emission', F, "            if isinstance(value, list):\n                for x in value:\n                    # FIXME XXX", "            if self._find_real_name(key) in self.list_parsers and not isinstance(value, list):\n                value = self.parsers[self._find_real_name(key)].parse(value)\n            if isinstance(value, list):\n                for x in value:\n                    # FIXME XXX", ['R10.3']),
     M('scalar-key-twice', F, "            else:\n                args.append(key)\n                args.append(value)\n\n            # FIXME", "            else:\n                args.append(key)\n                args.append(key)\n                args.append(value)\n\n            # FIXME", ['R10.3']),
     M('list-first-element-only', F, "                for x in value:\n                    # FIXME XXX\n                    if x is not DEFAULT_VALUE:\n                        args.append(key)\n                        args.append(str(x))\n", "                for x in value[:1]:\n                    # FIXME XXX\n                    if x is not DEFAULT_VALUE:\n                        args.append(key)\n                        args.append(str(x))\n", ['R10.3']),
     M('list-sorted', F, "                for x in value:\n                    # FIXME XXX", "                for x in sorted(value):\n                    # FIXME XXX", ['R10.3']),
